@@ -1,5 +1,5 @@
 /*VERIF
-{ "tu": "src/data.c", "enforce": "dispatch_data_create_subrange", "props": ["C13"], "seq": true, "timeout": 400, "cases": 20, 
+{ "tu": "src/data.c", "enforce": "dispatch_data_create_subrange", "props": ["C13", "C20"], "seq": true, "timeout": 400, "cases": 20, 
   "cut_recursion": ["dispatch_data_create_subrange"],
   "bounded": {"what": "composite input objects with <= 4 records, run as 20 cases = every valid triple (first record, last record, observed result record) over 4 records (static typed harness object); the three record loops are closed by inductive loop contracts over ghost prefix sums, not unwound"},
   "stub_note": "allocator, retain, memcpy(range records) = record-wise copy model; the depth-1 recursive call on a leaf is replaced by a stub that checks the leaf-side precondition (leaf contract: h_subrange_leaf)",
